@@ -142,6 +142,10 @@ func (ibkr) Generate(r *rand.Rand, o Opts) *Statement {
 				qty, proceeds = qty.Neg(), proceeds.Neg()
 			}
 			comm := Cents(-int64(r.Intn(300)))
+			if r.Intn(8) == 0 {
+				comm = Cents(int64(1 + r.Intn(200))) // a rebate or correction: the commission column is positive
+				st.feature("forex-positive-commission")
+			}
 			forex = append(forex, csvLine(',', "Trades", "Data", "Order", "Forex", cur, a+"."+cur, fmt.Sprintf(`"%s, %s"`, day, hms(r)),
 				ibNum(qty, true), fmt.Sprintf("1.%05d", r.Intn(100000)), "", ibNum(proceeds, true), comm.Short(), "", "", "", "0", ""))
 			add(cash, a, qty)
